@@ -150,6 +150,10 @@ class _OperatorDelimiter:
                 parent_precedence = astor.op_util.get_op_precedence(parent_node.op)
                 if isinstance(parent_node.op, ast.Pow) or isinstance(parent_node, ast.BoolOp):
                     parent_precedence+=1
+                elif isinstance(parent_node, ast.BinOp) and node is parent_node.right:
+                    # Binary operators other than ** group to the left: a right operand
+                    # of the same precedence needs its parenthesis, "a-(b-c)" is not "a-b-c".
+                    parent_precedence+=1
             else:
                 parent_precedence = colorizer.explicit_precedence.get(
                     node, astor.op_util.Precedence.highest)
